@@ -32,12 +32,21 @@ class SingletonLocus:
         self._value = e
 
 
+    def __contains__(self, e: Element) -> bool:
+        '''Test whether an element is in the locus. The locus stands for a
+        single susceptible-infected edge, so it contains that edge for as long
+        as the edge remains in the model's SI locus, and nothing else.
+
+        :param e: the element
+        :returns: True if the element is the locus' edge and still an SI edge'''
+        return e == self._value and e in self._process.locus(self._process.SI)
+
     def __len__(self) -> int:
-        '''Length is always 1.
+        '''Return the size of the locus: 1 while its edge is still an SI edge,
+        0 once it isn't.
 
-        :returns: 1'''
-        return 1
-
+        :returns: the number of elements'''
+        return 1 if self._value in self else 0
 
     def draw(self) -> Element:
         '''Draw the only value.
